@@ -33,21 +33,21 @@ def interesting_paths(h):
 
 
 def draw_ext(draw, h, univ, bias=True):
-    paths = list(univ)
+    paths = [p for p in univ if not h.protected(h.sb.ap(p))]
     if bias:
         ip = interesting_paths(h)
-        paths = paths + ip + ip
-    paths = [p for p in paths if not h.protected(h.sb.ap(p))]
+        if ip and draw(st.booleans()):
+            paths = ip
     return draw(gen.ext_step(paths))
 
 
 def draw_build(draw, h, names, fail_p=0.15, ver_p=0.2):
     vers = h.last.get('versions', {}) if h.last else {}
-    if draw(st.floats(0, 1)) < ver_p:
+    if gen.chance(draw, ver_p):
         vers = draw(gen.versions_for(names))
     elif draw(st.integers(0, 9)) == 0:
         vers = {}
-    fail_at = draw(st.integers(0, 5)) if draw(st.floats(0, 1)) < fail_p else None
+    fail_at = draw(st.integers(0, 5)) if gen.chance(draw, fail_p) else None
     return ['build', vers, fail_at]
 
 
@@ -218,3 +218,28 @@ def shrink_candidates(case):
         c = dict(case)
         c['cache'] = 'cache.gz'
         yield c
+
+
+def install(g, quick, thorough):
+    """Define plan/run_shard/replay/shrink_candidates in a property module's namespace ``g``."""
+    import sys
+    name = g['__name__']
+
+    def plan(tier, seed):
+        return plan_shards(tier, seed, quick, thorough)
+
+    def run_shard(shard):
+        return run_history_shard(sys.modules[name], shard)
+
+    def replay(case):
+        return run_scenario(case, clauses=g['CLAUSES'])[0]
+
+    g.setdefault('plan', plan)
+    g.setdefault('run_shard', run_shard)
+    g.setdefault('replay', replay)
+    g.setdefault('shrink_candidates', shrink_candidates)
+
+
+def step(h, s):
+    """Apply a step and collect its failures."""
+    h.failures.extend(h.apply(s))
